@@ -83,6 +83,7 @@ import "github.com/plgd-dev/go-coap/v3/message"
 //@   ensures [rejects] err != nil && !errors.Is(err, message.ErrOptionsTooSmall) ==> exists K int :: {rawStart(data, K)} prefixOK(data, K) && !terminal(data, rawStart(data, K)) && !rawOK(data, K)
 //@   ensures [too-small] errors.Is(err, message.ErrOptionsTooSmall) ==> exists K int :: {rawStart(data, K)} prefixOK(data, K) && rawOK(data, K) && cap(old(m.Options)) == len(old(m.Options)) + nKept(data, tcpDefs(header.Code), K)
 //@   ensures [too-small-full] errors.Is(err, message.ErrOptionsTooSmall) ==> len(m.Options) == cap(m.Options) && cap(m.Options) == cap(old(m.Options))
+//@   ensures [sorted] err == nil && len(old(m.Options)) == 0 ==> sortedOpts(m.Options)
 //@   ensures [fields] err == nil ==> m.Code == header.Code && m.Token == header.Token
 //@   ensures [unchanged-on-error] err != nil ==> m.Payload == old(m.Payload) && m.Code == old(m.Code) && m.Token == old(m.Token)
 //
@@ -97,6 +98,7 @@ import "github.com/plgd-dev/go-coap/v3/message"
 //@   ensures [rejects] err != nil && !errors.Is(err, message.ErrOptionsTooSmall) && tcpFrameOK(data) ==> exists K int :: {rawStart(data[hdrLen(data) : ], K)} prefixOK(data[hdrLen(data) : ], K) && !terminal(data[hdrLen(data) : ], rawStart(data[hdrLen(data) : ], K)) && !rawOK(data[hdrLen(data) : ], K)
 //@   ensures [too-small] errors.Is(err, message.ErrOptionsTooSmall) ==> tcpFrameOK(data) && exists K int :: {rawStart(data[hdrLen(data) : ], K)} prefixOK(data[hdrLen(data) : ], K) && rawOK(data[hdrLen(data) : ], K) && cap(old(m.Options)) == len(old(m.Options)) + nKept(data[hdrLen(data) : ], tcpDefs(data[1 + extBytesOf(data[0] / 16)]), K)
 //@   ensures [too-small-full] errors.Is(err, message.ErrOptionsTooSmall) ==> len(m.Options) == cap(m.Options) && cap(m.Options) == cap(old(m.Options))
+//@   ensures [sorted] err == nil && len(old(m.Options)) == 0 ==> sortedOpts(m.Options)
 //@   ensures [fields] err == nil ==> m.Code == data[1 + extBytesOf(data[0] / 16)] && (data[0] % 16 > 0 ==> m.Token == data[2 + extBytesOf(data[0] / 16) : hdrLen(data)]) && (data[0] % 16 == 0 ==> m.Token == nil)
 //
 // ---- C01: decode(encode(m)) == m for every well-formed message (stream framing) --------------------
